@@ -299,16 +299,17 @@ theorem engine_never_panics (cfg : Config) (hd : cfg.delims.accepted = true)
 
 /-- **`engine_never_panics_concrete`: no hypothesis on the built-ins that are modelled in Lean.**
 With the built-in instance the driver runs (`BuiltinsM.model`, Model/PipelineBuiltins.lean: the
-filters and tests of C17's `filterTable` / `testTable`, the functions `range` / `throw`, and the
-collection filters `length reverse first last nth join keys values pairs split`, `safe`, `str`
-written out in the dispatch), for EVERY float printer and EVERY float arithmetic (the two
+filters and tests of C17's `filterTable` / `testTable`, the functions `range` / `throw`, the
+collection filters of C16 `length reverse first last nth join keys values pairs split sort unique
+group_by`, the `containing` test of C15, and `safe`, `str` written out in the dispatch), for EVERY float printer and EVERY float arithmetic (the two
 parameters that remain: `{:?}` of an f64 and the IEEE operations, total functions), every
 configuration with validated delimiters, every batch of valid UTF-8 sources, every template name,
 context and fuel: source text in, outcome out, never a panic.  `C17.builtins_never_panic`,
 `range_never_panics`, `throw_contract` discharge `BuiltinsNoPanic`.  What stays outside the model
 answers `unmodelled` (a non-panic outcome of the MODEL, about which the theorem says nothing for
-the engine): `sort`, `unique`, `group_by`, `upper` / `lower` / `capitalize` / `title` on non-ASCII
-text, `float`, `int` of a text with a `.`, every built-in of C17's tables whose body is
+the engine): `upper` / `lower` on text outside the small case-mapping table of
+Model/PipelineBuiltins.lean (ASCII, Latin-1, a few blocks without cased letters), `capitalize` /
+`title` on non-ASCII text, `float`, `int` of a text with a `.`, every built-in of C17's tables whose body is
 `afterKw … unmodelled`, the functions `now` / `get_random` / `get_env` if registered, and custom
 filters of the embedding application. -/
 theorem engine_never_panics_concrete (d : Delims) (hd : d.accepted = true)
